@@ -880,9 +880,14 @@ example : ∃ e', ({ shared := { syl := 0, dict := (), com := { cursor := 1, inn
 /-! ## linked (round 2): the ledger over histories WITHOUT the tiling premise
 
 `history_ledger` assumes `TilesAlong` (the engine's answer tiles the buffer at every edited state of the
-history).  C01 proves that editor histories outside its known class (F02 / F03) reach only states satisfying
-`EditorInv` — composition valid (C04 / `CompValid`), cursor in range (C05), a word for every buffered
-syllable — for every environment satisfying `EnvOK`; `EnvOK.convert_ok` is C03's theorem about the engines.
+history, ONE CHARACTER PER SYMBOL).  That is a statement about states in which every buffered syllable has a
+word: since the F02 / F03 repair a syllable without a word no longer aborts the engine, it is shown — and
+committed — as its Bopomofo spelling (1–4 characters for one symbol, C03 `text_shape`), so on such states the
+character ledger does NOT hold as an equation (the harness oracle counts a spelled syllable as one symbol).
+C01 proves that editor histories outside the word-losing class `Known` (the former F02 / F03 class) reach only
+states satisfying `EditorInv … True` — composition valid (C04 / `CompValid`), cursor in range (C05), a word for
+every buffered syllable — for every environment satisfying `EnvOK`; `EnvOK.convert_ok` / `convert_len` are
+C03's theorems about the engines.
 `Proofs/EditorLink.lean` shows that the states INSIDE a step (`editPart`) satisfy the shared-state invariant
 too and derives `TilesAlong` (`Link.tilesAlong_of_allowed`).  Clauses of `EnvOK` used: ALL of them —
 `convert_ok` gives the tiling itself and totality of the commit paths; `wf`, `std_fuzzy`, `add_*`, `update_*`,
@@ -894,8 +899,8 @@ open Chewing.C01
 variable {env} {G : D → Prop}
 
 /-- **C02 over histories, linked**: for every environment satisfying C01's `EnvOK`, from every state
-    satisfying C01's reachable-state invariant, along every history that avoids C01's `Known` class
-    (`Allowed`: valid arguments, not F02/F03; the `jump_*` calls on an open phrase list are included since C01
+    satisfying C01's reachable-state invariant, along every history that avoids C01's word-losing class `Known`
+    (`Allowed`: valid arguments, no operation after which a buffered syllable is left without a word; the `jump_*` calls on an open phrase list are included since C01
     covers them) the ledger equation holds:
     characters of all commit strings + symbols left = symbols at the start + characters accepted.
     No `TilesAlong` premise. -/
